@@ -284,7 +284,7 @@ def check_hierarchy(ctx, facts):
             else:
                 ctx.violation('C06.d', '%s.getWidth' % c.name, 'getWidth() does not return the declared width: %s'
                               % '; '.join(norm(r) for r in rets), '%s:%s.getWidth' % (c.rel, c.name))
-    ctx.floor('C06.a', 'stores to value/next in the Wire hierarchy', nstores, 8)
+    ctx.floor('C06.a', 'stores to value/next in the Wire hierarchy', nstores, 4)   # a subclass may inherit instead of repeating the mutators
     return wh
 
 
